@@ -122,7 +122,7 @@ func fineScenario(c *vlib.Ctx, section string, i int, r *vlib.Rand, construct bo
 	}
 	jumpTo, procs1 := int64(-1), false
 	if construct {
-		d, lead = int64(pickInt(r, 200, 500, 1000, 2000, 5000, 30000, r.Range(200, 30000), r.Range(200, 30000))), 0
+		d, lead = int64(pickInt(r, 1000, 2000, 5000, 30000, r.Range(1000, 30000), r.Range(1000, 30000))), 0
 		over := int64(pickInt(r, 0, 1, r.Range(2, 50), r.Range(1000, 10000), r.Range(10000, 59000), 59999, 60001,
 			r.Range(60100, 3600*1000), r.Range(3600*1000, int(dayMs)-1)))
 		if r.Chance(1, 6) {
@@ -164,7 +164,7 @@ func fineScenario(c *vlib.Ctx, section string, i int, r *vlib.Rand, construct bo
 	name := func(day int64) string { return logName(s.id, s.oname, s.rot, day) }
 	visited := map[int64]bool{}
 	everNames := map[string]bool{logName(s.id, s.oname, true, day0): true} // the constructor opens a dated file first
-	tracked := map[string]int64{logName(s.id, s.oname, true, day0): day0}  // own dated files known to exist → their day
+	tracked := map[string]int64{}                                          // own dated files known to exist → their day
 	visit := func(t int64) {
 		dd := dayOf(t)
 		visited[dd] = true
@@ -200,13 +200,14 @@ func fineScenario(c *vlib.Ctx, section string, i int, r *vlib.Rand, construct bo
 	// the date changed while the logger was being created (deliberately, or because creating
 	// it took longer than the distance to midnight)
 	newborn := len(visited) > 1
-	if s.useApply {
-		// until ApplyConfig the logger ran with the default keep-days (7): a cycle of its own
-		// goroutine during start-up may already have pruned the constructor's file
-		for dd := range visited {
-			if dd-day0 > 7 {
-				delete(tracked, logName(s.id, s.oname, true, day0))
-			}
+	// own dated files that exist now. (Which day's file the constructor opened is only certain
+	// when the date did not change during start-up; and until ApplyConfig the logger ran with the
+	// default keep-days 7, so a cycle of its own goroutine may already have pruned that file.)
+	atStart, _ := readDirFiles(s.logs)
+	for dd := range visited {
+		nm := logName(s.id, s.oname, true, dd)
+		if _, ok := atStart[nm]; ok {
+			tracked[nm] = dd
 		}
 	}
 	if newborn && !construct {
